@@ -1144,6 +1144,14 @@ class Interp(object):
             pass
         c_t = cond_true
         c_f = b_not(cond_true)
+        feas_t = feas_f = True
+        if self.prune and pc and ck in ("bit", "split"):
+            # drop a successor that contradicts the conditions already on this path
+            from .harness import pc_status
+            feas_t = pc_status(pc + (c_t,))[0] != "unsat"
+            feas_f = pc_status(pc + (c_f,))[0] != "unsat"
+            if feas_t != feas_f:
+                return self.run(fr, t_tgt if feas_t else f_tgt, stop, st, pc)
         ro_t = self.run(fr, t_tgt, join, st.fork(), pc + (c_t,))
         ro_f = self.run(fr, f_tgt, join, st, pc + (c_f,))
         stops_t = [o for o in ro_t if o.kind == "stop"]
@@ -1181,6 +1189,7 @@ class Interp(object):
 
     join_on_top = False
     uf_fallback = False
+    prune = False
 
     def uf_arg(self, a, st):
         """arguments of an uninterpreted call: pointers are replaced by what they point to"""
